@@ -929,8 +929,8 @@ func (s *scope) interpretIdentStatement(stmt *IdentStatement) pyObject {
 		}
 	} else if stmt.Unpack != nil {
 		obj := s.interpretExpression(stmt.Unpack.Expr)
-		l, ok := obj.(pyList)
-		s.Assert(ok, "Cannot unpack type %s", l.Type())
+		l, ok := asList(obj)
+		s.Assert(ok, "Cannot unpack type %s", obj.Type())
 		// This is a little awkward because the first item here is the name of the ident node.
 		s.Assert(len(l) == len(stmt.Unpack.Names)+1, "Wrong number of items to unpack; expected %d, got %d", len(stmt.Unpack.Names)+1, len(l))
 		s.Set(stmt.Name, l[0])
@@ -1028,7 +1028,7 @@ func (s *scope) unpackNames(names []string, obj pyObject) {
 	if len(names) == 1 {
 		s.Set(names[0], obj)
 	} else {
-		l, ok := obj.(pyList)
+		l, ok := asList(obj)
 		s.Assert(ok, "Cannot unpack %s into %s", obj.Type(), names)
 		s.Assert(len(l) == len(names), "Incorrect number of values to unpack; expected %d, got %d", len(names), len(l))
 		for i, name := range names {
